@@ -54,11 +54,18 @@ impl TestRunnerAdapter {
         let thread_sender = event_sender.clone();
         let thread_test_case_path = test_case_path.clone();
         thread::spawn(move || {
-            let mut last_checked_pc = None;
+            // After being stopped we are resumed at the location where we stopped, which may well have a breakpoint (the
+            // one we stopped for). That one instruction is executed without checking. Every other instruction is checked,
+            // also when it is the same location again (an instruction that jumps to itself).
+            let mut resumed = false;
             while thread_is_connected.load(Ordering::Relaxed) {
                 let state = *thread_state.lock().unwrap();
                 match state {
-                    MachineRunningState::Launching | MachineRunningState::Stopped(_) => {
+                    MachineRunningState::Launching => {
+                        thread::sleep(Duration::from_millis(50));
+                    }
+                    MachineRunningState::Stopped(_) => {
+                        resumed = true;
                         thread::sleep(Duration::from_millis(50));
                     }
                     MachineRunningState::Running => {
@@ -66,8 +73,8 @@ impl TestRunnerAdapter {
                             let runner = thread_runner.read().unwrap();
                             let pc =
                                 ProgramCounter::new(runner.cpu().get_program_counter() as usize);
-                            if last_checked_pc != Some(pc) && !no_debug {
-                                last_checked_pc = Some(pc);
+                            let just_resumed = std::mem::replace(&mut resumed, false);
+                            if !just_resumed && !no_debug {
                                 let bps = thread_breakpoints.lock().unwrap();
                                 if bps
                                     .iter()
